@@ -174,7 +174,9 @@ def coq_check(prop, src_targets=()):
     else:
         # parse the Print Assumptions blocks, in order, one per `Print Assumptions X.` line of the file
         pa = re.findall(r"^Print Assumptions\s+([A-Za-z0-9_']+)\s*\.", open(pv).read(), re.M)
-        blocks = re.split(r"(?=^Closed under the global context|^Axioms:)", out, flags=re.M)
+        # only the output of the property file itself (a dependency that is another property file may have been rebuilt in the same make)
+        own = out[out.rfind(f"COQC Props/{prop}.v"):] if f"COQC Props/{prop}.v" in out else out
+        blocks = re.split(r"(?=^Closed under the global context|^Axioms:)", own, flags=re.M)
         blocks = [b for b in blocks if b.startswith("Closed under") or b.startswith("Axioms:")]
         for name, b in zip(pa, blocks):
             if b.startswith("Closed under"):
